@@ -490,3 +490,40 @@ func (s *Struct) DeclString() string {
 	b.WriteString("}\n")
 	return b.String()
 }
+
+// StripLayoutAttrs returns a copy of t in which no struct member carries an
+// @align or @size attribute.
+func StripLayoutAttrs(t *Type) *Type {
+	switch t.K {
+	case TArray:
+		c := *t
+		c.Elem = StripLayoutAttrs(t.Elem)
+		return &c
+	case TStruct:
+		s := &Struct{Name: t.St.Name}
+		for _, m := range t.St.Members {
+			s.Members = append(s.Members, &Member{Name: m.Name, T: StripLayoutAttrs(m.T)})
+		}
+		return StructT(s)
+	}
+	return t
+}
+
+// AttrsChangeLayout reports whether the @align/@size attributes inside t move
+// any scalar leaf (or the total size) away from where the attribute-free
+// declaration would put it.
+func AttrsChangeLayout(t *Type, rtLen int) bool {
+	var a, b []Leaf
+	Leaves(t, 0, rtLen, "", &a)
+	s := StripLayoutAttrs(t)
+	Leaves(s, 0, rtLen, "", &b)
+	if len(a) != len(b) || SizeOfRT(t, rtLen) != SizeOfRT(s, rtLen) {
+		return true
+	}
+	for i := range a {
+		if a[i].Off != b[i].Off {
+			return true
+		}
+	}
+	return false
+}
